@@ -319,3 +319,95 @@ Proof.
   - eexists. split; [vm_compute; reflexivity|]. split; vm_compute; reflexivity.
 Qed.
 Print Assumptions alias_residue_refuted_pinned.
+
+(* ================================================================================================
+   unsetup_inverts_setup for the composed model with the comparator and the matcher of C10 (Model/ResolveReal.v).
+   The total-order hypothesis is discharged from the theorems of Props/C10.v for worlds whose version names are
+   conventional and, per product, spell pairwise different keys (fw_real_ok; see Props/C01.v closure_exact_real).
+   ================================================================================================ *)
+From Eupsv Require Import Model.ResolveReal Proofs.ResolveReal Proofs.SetupFullRealExample.
+
+Theorem unsetup_inverts_setup_real fw cfg rc flavors dl rank vro top li D
+        fuel fuel2 st st1 al1 tr1 al vro2 li2 ok2 st2 al2 tr2 :
+  WF2 (fw_products fw) dl rank -> c_max_depth cfg = None ->
+  wf_db (db_of cfg fw) = true -> fw_real_ok cfg fw = true ->
+  mem_entry EKeep vro = false ->
+  conflict_free vcmp_real vmatch_real fw cfg rc flavors vro top li D ->
+  nodollar_paths (fw_products fw) (s_env st) -> Inv (fw_products fw) (s_env st) -> fresh_for fw top st ->
+  setup_full_real fw cfg rc flavors fuel st [] vro top li true 0 false = FDone true st1 al1 tr1 ->
+  setup_full_real fw cfg rc flavors fuel2 st1 al vro2 top li2 false 0 false = FDone ok2 st2 al2 tr2 ->
+  (forall n, reachN fw top n -> find_setup_product (fw_products fw) (s_env st2) n = None) /\
+  (forall var, path_var (fw_products fw) var ->
+     uniq (elems (dl var) (oldv var (s_env st2))) = uniq (elems (dl var) (oldv var (s_env st)))) /\
+  (forall k, ~ path_var (fw_products fw) k -> alookup k (s_env st2) = alookup k (s_env st)) /\
+  (forall k, alookup k (s_aliases st2) = alookup k (s_aliases st)).
+Proof.
+  intros H Hd Hw Hok. apply (unsetup_inverts_setup vcmp_real vmatch_real fw cfg rc flavors dl rank); auto.
+  now apply fw_real_ok_total.
+Qed.
+Print Assumptions unsetup_inverts_setup_real.
+
+Corollary unsetup_inverts_setup_request_real fw cfg rc flavors dl rank vro top version D fuel fuel2 st st1 tr1 st2 tr2 :
+  WF2 (fw_products fw) dl rank -> c_max_depth cfg = None ->
+  wf_db (db_of cfg fw) = true -> fw_real_ok cfg fw = true ->
+  select_vro rc (request_opts cfg version) = Ok vro -> mem_entry EKeep vro = false ->
+  conflict_free vcmp_real vmatch_real fw cfg rc flavors vro top {| li_version := version; li_expr := None |} D ->
+  nodollar_paths (fw_products fw) (s_env st) -> Inv (fw_products fw) (s_env st) -> fresh_for fw top st ->
+  request_full_real fw cfg rc flavors fuel st top version true false = Ok (Some st1, tr1) ->
+  request_full_real fw cfg rc flavors fuel2 st1 top None false false = Ok (Some st2, tr2) ->
+  (forall n, reachN fw top n -> find_setup_product (fw_products fw) (s_env st2) n = None) /\
+  (forall var, path_var (fw_products fw) var ->
+     uniq (elems (dl var) (oldv var (s_env st2))) = uniq (elems (dl var) (oldv var (s_env st)))) /\
+  (forall k, ~ path_var (fw_products fw) k -> alookup k (s_env st2) = alookup k (s_env st)) /\
+  (forall k, alookup k (s_aliases st2) = alookup k (s_aliases st)).
+Proof.
+  intros H Hd Hw Hok. apply (unsetup_inverts_setup_request vcmp_real vmatch_real fw cfg rc flavors dl rank); auto.
+  now apply fw_real_ok_total.
+Qed.
+Print Assumptions unsetup_inverts_setup_request_real.
+
+(* ---- inhabited: rvx_fw (Proofs/SetupFullRealExample.v), setup libb (base resolves to 1.10-rc1 through the
+   expression < 1.10) then unsetup libb from the empty state: the two path variables are left empty ---- *)
+Example unsetup_inverts_setup_real_inhabited :
+  WF2 (fw_products rvx_fw) (dl_of rvx_world) (rank_of rvx_order) /\ fw_real_ok ex_cfg rvx_fw = true /\
+  wf_db (db_of ex_cfg rvx_fw) = true /\
+  nodollar_paths rvx_world (s_env ex_st0) /\ Inv rvx_world (s_env ex_st0) /\
+  exists tr1 tr2,
+    request_full_real rvx_fw ex_cfg default_config ex_flavors 20 ex_st0 (lit "libb") None true false
+      = Ok (Some rvx_libb_state, tr1) /\
+    request_full_real rvx_fw ex_cfg default_config ex_flavors 20 rvx_libb_state (lit "libb") None false false
+      = Ok (Some ex_after, tr2).
+Proof.
+  split; [apply wf2_check_sound; vm_compute; reflexivity|]. split; [vm_compute; reflexivity|].
+  split; [vm_compute; reflexivity|]. split; [apply nodollar_nil|]. split; [apply Inv_nil|].
+  eexists. eexists. split; vm_compute; reflexivity.
+Qed.
+Print Assumptions unsetup_inverts_setup_real_inhabited.
+
+(* ---- and for every world with conventional version names whose (single) stack lists them sorted as strings, names
+   that spell one key included: the designation rule read in the order vcmp_sorted (Props/C01.v
+   closure_exact_real_sorted, Props/C03.v walk_is_designation_one_sorted_stack) ---- *)
+From Eupsv Require Import Proofs.ResolveRealSorted.
+
+Theorem unsetup_inverts_setup_real_sorted fw cfg rc flavors dl rank vro top li D
+        fuel fuel2 st st1 al1 tr1 al vro2 li2 ok2 st2 al2 tr2 :
+  WF2 (fw_products fw) dl rank -> c_max_depth cfg = None ->
+  wf_db (db_of cfg fw) = true -> fw_conv fw = true -> db_sorted (db_of cfg fw) = true ->
+  mem_entry EKeep vro = false ->
+  conflict_free vcmp_sorted vmatch_real fw cfg rc flavors vro top li D ->
+  nodollar_paths (fw_products fw) (s_env st) -> Inv (fw_products fw) (s_env st) -> fresh_for fw top st ->
+  setup_full_real fw cfg rc flavors fuel st [] vro top li true 0 false = FDone true st1 al1 tr1 ->
+  setup_full_real fw cfg rc flavors fuel2 st1 al vro2 top li2 false 0 false = FDone ok2 st2 al2 tr2 ->
+  (forall n, reachN fw top n -> find_setup_product (fw_products fw) (s_env st2) n = None) /\
+  (forall var, path_var (fw_products fw) var ->
+     uniq (elems (dl var) (oldv var (s_env st2))) = uniq (elems (dl var) (oldv var (s_env st)))) /\
+  (forall k, ~ path_var (fw_products fw) k -> alookup k (s_env st2) = alookup k (s_env st)) /\
+  (forall k, alookup k (s_aliases st2) = alookup k (s_aliases st)).
+Proof.
+  intros H Hd Hw C S Hk CF Hnd HI HF E1 E2.
+  rewrite (setup_full_real_is_sorted cfg fw rc flavors) in E1, E2 by assumption.
+  apply (unsetup_inverts_setup vcmp_sorted vmatch_real fw cfg rc flavors dl rank vro top li D
+           fuel fuel2 st st1 al1 tr1 al vro2 li2 ok2 st2 al2 tr2); auto.
+  now apply fw_conv_total_sorted.
+Qed.
+Print Assumptions unsetup_inverts_setup_real_sorted.
